@@ -153,6 +153,14 @@ pub fn transcript(keep: usize, scale: usize) -> Transcript {
                         ROp::Seek(p) => show(&guard(|| r.r.set_bit_pos(*p).unwrap())),
                         ROp::IoRead(n) => show(&guard(|| r.r.io_read(*n).unwrap())),
                         ROp::PastEnd => show(&guard(|| r.r.read_bits(64))),
+                        ROp::PeekSkip(k, n) => {
+                            let a = show(&guard(|| r.r.peek_bits(*k)));
+                            let _ = guard(|| {
+                                r.r.skip_after_peek(*n);
+                                Ok(())
+                            });
+                            a
+                        }
                         ROp::CloneSwitch => {
                             if let Some(c) = r.r.try_clone() {
                                 r.r = c;
